@@ -6,7 +6,9 @@
    facts hold for every list of round keys.  [sm4_prims] is the instance the extracted runner uses. *)
 From Coq Require Import List NArith Arith Bool Lia.
 From GmsmVerif Require Import Lib.Outcome SM4.SM4Spec SM4.SM4Lemmas SM3.SM3Spec SM3.HMACSpec SM3.HMACProofs
-  Rec.GcmRef Rec.GcmRefProofs Rec.RecordSpec Rec.RecordModel Rec.RecordProofs Rec.RecordRoundtrip.
+  Rec.GcmRef Rec.GcmRefProofs Rec.RecordSpec Rec.RecordModel Rec.RecordProofs Rec.RecordRoundtrip
+  Rec.RecordIntegrity Rec.RecordFragment Rec.RecordProgress Rec.RecordDuplex.
+From Coq Require Import ZifyN ZifyNat ZifyBool.
 Import ListNotations.
 Local Open Scope nat_scope.
 
@@ -49,3 +51,35 @@ Qed.
 
 Lemma sm4_expansion_ok : p_bs sm4_prims + p_macSize sm4_prims + p_bs sm4_prims + p_overhead sm4_prims + 8 <= 2048.
 Proof. cbn. lia. Qed.
+
+(* dynamic record sizing with the SM4 suites always leaves room for payload: the first record of a
+   connection carries up to 1151 (CBC) / 1179 (GCM) bytes *)
+Lemma ldiff_15_ge x : (x - 15 <= N.ldiff x 15)%N.
+Proof.
+  change 15%N with (N.ones 4). rewrite N.ldiff_ones_r, N.shiftr_div_pow2, N.shiftl_mul_pow2.
+  change (2 ^ 4)%N with 16%N. change (N.ones 4) with 15%N. pose proof (N.div_mod' x 16). pose proof (N.mod_lt x 16 ltac:(discriminate)). lia.
+Qed.
+
+Lemma sm4_maxPayload_pos c typ e : e <= 8 + p_bs sm4_prims -> 1 <= fst (maxPayloadSizeForWrite sm4_prims c typ e).
+Proof.
+  cbn [sm4_prims p_bs]. intros He. unfold maxPayloadSizeForWrite. cbn [sm4_prims p_bs p_macSize p_overhead].
+  assert (Hmax : 1 <= maxPlaintext) by (unfold maxPlaintext; lia).
+  destruct (o_dynDisabled c || negb (typ =? recordTypeApplicationData)%N); [exact Hmax|].
+  destruct (recordSizeBoostThreshold <=? o_bytesSent c)%N; [exact Hmax|].
+  destruct (1000 <? o_packetsSent c)%N; [exact Hmax|].
+  cbn [fst].
+  set (pb := match hc_cipher (o_hc c) with
+             | CipherNone => tcpMSSEstimate - recordHeaderLen - e
+             | CipherAEAD _ _ => tcpMSSEstimate - recordHeaderLen - e - 16
+             | CipherCBC _ _ =>
+               N.to_nat (N.ldiff (N.of_nat (tcpMSSEstimate - recordHeaderLen - e)) (N.of_nat (16 - 1))) - 1 -
+               match hc_mac (o_hc c) with Some _ => 32 | None => 0 end
+             end).
+  assert (Hpb : 1 <= pb).
+  { unfold pb, tcpMSSEstimate, recordHeaderLen.
+    destruct (hc_cipher (o_hc c)); try lia.
+    pose proof (ldiff_15_ge (N.of_nat (1208 - 5 - e))). change (N.of_nat (16 - 1)) with 15%N.
+    destruct (hc_mac (o_hc c)); lia. }
+  assert (Hn : 1 <= pb * N.to_nat (o_packetsSent c + 1)) by nia.
+  destruct (maxPlaintext <? pb * N.to_nat (o_packetsSent c + 1)); [exact Hmax|exact Hn].
+Qed.
